@@ -64,7 +64,7 @@ def histories(ctx):
     if len(singles) < 30:
         raise verif.MachineryError("TLC enumerated only %d single-edit histories, see %s" % (len(singles), r1["dir"]))
     # (2) random walks of the history model
-    n = ctx.pick(15, 200)
+    n = ctx.pick(15, 150)
     r = ctx.tlc("Incremental", cfg="Incremental_simrun.cfg", files={"Incremental_simrun.cfg": SIM_CFG % ctx.pick("Plan3333", "Plan33333")},
                 workers=1, simulate="num=%d" % n, depth=80, extra=("-seed", str(1000 + ctx.seed)), name="simulate", timeout=1800)
     sims = parse_hist(r["out"])
